@@ -195,6 +195,7 @@ class Metadata:
                 dset.attrs['type'] = 'tuple'.encode('utf-8')
             # of numbers
             elif isinstance(v[0], Number):
+                self._validate_sequence(v, (Number,np.bool_))
                 dset = grp.create_dataset(k, data=v)
                 dset.attrs['type'] = 'tuple'.encode('utf-8')
             # of tuples
@@ -213,6 +214,7 @@ class Metadata:
                         data=x)
             # of arrays
             elif isinstance(v[0], np.ndarray):
+                self._validate_sequence(v, np.ndarray)
                 dset_grp = grp.create_group(k)
                 dset_grp.attrs['type'] = 'tuple_of_arrays'.encode('utf-8')
                 dset_grp.attrs['length'] = len(v)
@@ -223,6 +225,7 @@ class Metadata:
                         dtype=ar.dtype)
             # of strings
             elif isinstance(v[0], str):
+                self._validate_sequence(v, str)
                 dset_grp = grp.create_group(k)
                 dset_grp.attrs['type'] = 'tuple_of_strings'.encode('utf-8')
                 dset_grp.attrs['length'] = len(v)
@@ -241,10 +244,12 @@ class Metadata:
                 dset.attrs['type'] = 'list'.encode('utf-8')
             # of numbers
             elif isinstance(v[0], Number):
+                self._validate_sequence(v, (Number,np.bool_))
                 dset = grp.create_dataset(k, data=v)
                 dset.attrs['type'] = 'list'.encode('utf-8')
             # of arrays
             elif isinstance(v[0], np.ndarray):
+                self._validate_sequence(v, np.ndarray)
                 dset_grp = grp.create_group(k)
                 dset_grp.attrs['type'] = 'list_of_arrays'.encode('utf-8')
                 dset_grp.attrs['length'] = len(v)
@@ -255,6 +260,7 @@ class Metadata:
                         dtype=ar.dtype)
             # of strings
             elif isinstance(v[0], str):
+                self._validate_sequence(v, str)
                 dset_grp = grp.create_group(k)
                 dset_grp.attrs['type'] = 'list_of_strings'.encode('utf-8')
                 dset_grp.attrs['length'] = len(v)
@@ -268,6 +274,16 @@ class Metadata:
         else:
             er = f"Metadata supports writing numbers, bools, strings, arrays, tuples of numbers or arrays, and lists of numbers or arrays. Found an unsupported type {type(v[0])}"
             raise Exception(er)
+
+    @staticmethod
+    def _validate_sequence(v, kind):
+        """
+        Tuples and lists are stored by the kind of their first item; items
+        of any other kind would read back as something different
+        """
+        for x in v:
+            if not isinstance(x, kind):
+                raise Exception(f"Metadata only supports writing tuples and lists whose items are all numbers, all arrays, or all strings; found {type(x)} after {type(v[0])}")
 
     # read
     @classmethod
